@@ -211,7 +211,7 @@ def call(fn, d):
         return ('raised', type(e).__name__, str(e)[:120])
 
 
-def one(ctx: Ctx, cs):
+def one(ctx: Ctx, cs, derive=None):
     import kernpy as kp_
     doc, pname = make_doc(cs, None)
     x = doc.text(0)
@@ -221,6 +221,29 @@ def one(ctx: Ctx, cs):
     if exc is not None:
         ctx.mon('precondition_failed')
         return
+    real_loads = kpx.loads
+    if derive:
+        # the same history on a Document obtained through the API (result of a transposition / a clone): "a freshly imported copy" is
+        # then a freshly DERIVED copy of a fresh import
+        from . import measures_common as MC
+
+        def derived_loads(text, cs=cs, derive=derive):
+            d_, e_, x_ = real_loads(text)
+            if d_ is None:
+                return d_, e_, x_
+            out = MC.derive_document(ctx, d_, doc, text, cs, derive)
+            return (out, e_, None) if out is not None else (None, None, RuntimeError('derivation refused'))
+        d, e, exc = derived_loads(x)
+        if d is None:
+            return
+        kpx.loads = derived_loads
+    try:
+        return _one_history(ctx, cs, doc, pname, x, d, kp_, derive)
+    finally:
+        kpx.loads = real_loads
+
+
+def _one_history(ctx, cs, doc, pname, x, d, kp_, derive):
     scratch = str(SCRATCH_DIR / f'c14-{os.getpid()}')
     os.makedirs(scratch, exist_ok=True)
     rng = random.Random(cs ^ 0xC14)
@@ -242,7 +265,7 @@ def one(ctx: Ctx, cs):
         ctx.mon('snapshots')
         consts = kpx.constants_fp()
         log.append((desc, res[0]))
-        case = {'case_seed': cs, 'text': x, 'history': [l[0] for l in log]}
+        case = {'case_seed': cs, 'text': x, 'history': [l[0] for l in log], 'derive': derive}
         if res[0] == 'raised':
             raised += 1
             ctx.mon('raising_calls')
@@ -346,6 +369,8 @@ def run(ctx: Ctx):
     n = 130 if ctx.tier == 'quick' else 1000
     for cs in cases(ctx, 'c14', n):
         one(ctx, cs)
+    for k_, cs in enumerate(cases(ctx, 'c14-derived', n // 5)):
+        one(ctx, cs, derive=['transposed', 'clone', 'transposed'][k_ % 3])
     for cs in cases(ctx, 'c14-ranges', n // 2):
         one_ranges(ctx, cs)
     if ctx.shard is None and ctx.monitor_events.get('range_histories_nested_splits', 0) < 5:
@@ -355,5 +380,8 @@ def run(ctx: Ctx):
 
 def replay(ctx, w):
     case = w.get('case', w)
-    (one_ranges if case.get('phase') == 'ranges' else one)(ctx, case['case_seed'])
+    if case.get('phase') == 'ranges':
+        one_ranges(ctx, case['case_seed'])
+    else:
+        one(ctx, case['case_seed'], derive=case.get('derive'))
     print(case.get('text', ''))
